@@ -102,7 +102,7 @@ func VerifHarness_C20_mutated() {
 	img := append([]byte(nil), buf.Bytes()...)
 	w := 4
 	if verifrt.Thorough() {
-		w = []int{4, 9}[verifrt.Choose("window", 2)]
+		w = []int{4, 6}[verifrt.Choose("window", 2)]
 	}
 	if len(img) < w {
 		w = len(img)
